@@ -17,7 +17,7 @@ theorem checkHost_top (dns : Dns) (ss : Sess) (domain : List Byte) (hwf : ss.wf 
       match dns.txt domain with
       | .error e => .ok ((txtErrCode e, st0), [Query.txt domain])
       | .ok recs =>
-        match selectRecord (recs.map sanitizeTxt) none with
+        match selectRecord (txtView dns recs) none with
         | none => .ok ((SPF_PERMERROR, st0), [Query.txt domain])
         | some none => .ok ((SPF_NONE, st0), [Query.txt domain])
         | some (some rec) =>
@@ -36,7 +36,7 @@ theorem checkHost_top (dns : Dns) (ss : Sess) (domain : List Byte) (hwf : ss.wf 
   | ok recs =>
     show M.bind (M.bind (M.ask _ _) _) _ = _
     simp only [M.bind, M.ask, M.pure, pure]
-    cases h2 : selectRecord (recs.map sanitizeTxt) none with
+    cases h2 : selectRecord (txtView dns recs) none with
     | none => rfl
     | some o =>
       cases o with
@@ -69,7 +69,7 @@ theorem checkHost_rfc_top (dns : Dns) (ss : Sess) (domain : List Byte) (hv : isV
       match dns.txt domain with
       | .error e => (match failOfTxt Dev.rfc e with | none => .none | some f => failRes f)
       | .ok recs =>
-        match selectRfc Dev.rfc (recs.map sanitizeTxt) with
+        match selectRfc Dev.rfc (txtView dns recs) with
         | none => .permerror
         | some none => .none
         | some (some rec) => (checkDomain ⟨Dev.rfc, dns, ss⟩ 24 domain 0 true).1 := by
@@ -86,7 +86,7 @@ theorem checkHost_rfc_top (dns : Dns) (ss : Sess) (domain : List Byte) (hv : isV
     | some f => rfl
   | ok recs =>
     simp only []
-    cases h2 : selectRfc Dev.rfc (recs.map sanitizeTxt) with
+    cases h2 : selectRfc Dev.rfc (txtView dns recs) with
     | none => unfold checkDomain; simp only [h, if_true, h2]
     | some o =>
       cases o with
